@@ -18,7 +18,8 @@
    Part 4  leastness ([fix_least_gen], [fix_least]).
    Part 5  termination: fix_ty always succeeds with fuel >= xdepth s t + 3
            ([fix_total]); explicit depth bound [xdepth] for every term of a
-           store satisfying the full invariant ([dle_xdepth]). *)
+           store satisfying the full invariant ([dle_xdepth]).
+   The fuel bounds for unify and apply are in Infer/TermP.v. *)
 From Coq Require Import List Arith Bool Lia.
 Import ListNotations.
 From TF Require Import Base.Hier Base.Ty Sub.SubSpec Infer.Store Infer.Engine Infer.Run
@@ -411,6 +412,22 @@ Qed.
 
 Theorem fix_spec_all : forall f, fix_spec f.
 Proof. induction f; [apply fix_spec_0|apply fix_spec_S; auto]. Qed.
+
+(* the specification with [fixes] unfolded *)
+Theorem fix_spec_x fuel pl t s r s' :
+  J H s -> core s -> tg H (len s) t ->
+  fix_ty H fuel pl t s = MOk r s' ->
+  (bstep s s' /\
+   (forall v, cell_of s' v = cell_of s v \/
+      (c_bound (cell_of s v) = None /\
+       exists q o, occ s pl t q v /\ pbound q (cell_of s v) = Some o /\
+                   cell_of s' v = bcell (cell_of s v) o)) /\
+   (forall q v o, occ s pl t q v -> pbound q (cell_of s v) = Some o ->
+                  c_bound (cell_of s' v) <> None)) /\
+  r = follow s' t.
+Proof.
+  intros I C Tt E. destruct (fix_spec_all fuel pl t s r s' I C Tt E) as [[B S Cm] Er]. auto.
+Qed.
 
 (* C05_fix_binds *)
 Theorem fix_binds fuel t s r s' :
@@ -840,5 +857,10 @@ Proof.
   - lia.
 Qed.
 
-(*PART5C*)
+Theorem fix_term fuel pl t s : J H s -> inv s -> tg H (len s) t -> xdepth s t + 2 < fuel ->
+  forall s', fix_ty H fuel pl t s <> MEr EFuel s'.
+Proof.
+  intros I Iv Tt L s' E. destruct (fix_total fuel pl t s I Iv Tt L) as (r & s1 & E1). congruence.
+Qed.
+
 End Pol.
